@@ -9,6 +9,7 @@ pub mod props;
 pub mod rwire;
 pub mod rzone;
 pub mod util;
+pub mod wiregen;
 
 use engine::PropertyDef;
 
